@@ -285,4 +285,51 @@ def specRun (r : RunIn) (o : PrepOut) : Bool :=
   (o.trace.take s.2.length == s.2) && (!refusedTail || rest.getLast? == some .logErr) &&
     specPipeline ⟨afterLogging p, r.results, r.jsonName⟩ ⟨inner, o.err, o.target⟩
 
+
+/-! ### the whole of `run_antismash`, every option -/
+
+/-- the run stops before it ever looks at the output directory -/
+def stopsEarly (o : RunOpts) : Bool :=
+  o.listPlugins || o.checkPrereqsOnly || !o.prereqsOk || !o.optionsValid || !o.anyModule
+
+def earlyResult (o : RunOpts) : Option Exn × Option Nat :=
+  if o.listPlugins then (none, some 0)
+  else if o.checkPrereqsOnly then (none, some (if o.prereqsOk then 0 else 1))
+  else if !o.prereqsOk then (some "RuntimeError", none)
+  else if !o.optionsValid then (none, some 1)
+  else (some "ValueError", none)
+
+def Ev.isProfiling : Ev → Bool
+  | .openW n => n == profBinName || n == profTxtName
+  | .write n => n == profBinName || n == profTxtName
+  | _ => false
+
+/-- for every option set: whatever happens before the directory test, a refusal, or a failed
+    conversion leaves — apart from logging's own set-up — no file effect and in particular **no
+    profiling files**; only a run that completed writes them, after everything else, into the
+    directory it was allowed to use -/
+def specFull (o : RunOpts) (r : RunIn) (x : RunOut) : Bool :=
+  let p := (effective r.call).1
+  let s := setupLogging (logPlace p) p.target
+  let rest := x.out.trace.drop s.2.length
+  (x.out.trace.take s.2.length == s.2) &&
+  if stopsEarly o then
+    decide (x.out.target = s.1) && !rest.any Ev.touchesFiles && x.out.err == (earlyResult o).1
+      && x.code == (earlyResult o).2
+  else
+    let pipe : PipeIn := ⟨afterLogging p, r.results, r.jsonName⟩
+    if specAccepts pipe.prep && !r.results.hasFault then
+      let body := rest.takeWhile fun e => !e.isProfiling
+      let prof := rest.dropWhile fun e => !e.isProfiling
+      let done := (preparedDir pipe.prep).withFile pipe.jsonName (expectedFull r.results)
+      x.out.err.isNone && x.code == some 0
+        && (body.dropWhile (fun e => e != .openW pipe.jsonName)
+              == [.openW pipe.jsonName, .write pipe.jsonName, .annotated, .outputsWritten])
+        && (if o.profile then
+              prof == [.openW profBinName, .write profBinName, .openW profTxtName, .write profTxtName]
+                && decide (x.out.target = .dir ((done.withFile profBinName [profBin]).withFile profTxtName [profTxt]))
+            else prof.isEmpty && decide (x.out.target = .dir done))
+    else
+      !rest.any Ev.isProfiling && x.code.isNone && specRun r x.out
+
 end ASV.WriteSafety
